@@ -51,7 +51,9 @@ def generate(rng, tier):
     else:
         ops = [o for o in ops if o.get("h") != "H"]
     ops.append({"t": rng.choice([0.04, 0.6, 2.5]), "op": "browse", "h": "V", "id": "vb", "types": [T1, T2],
-                "lookup_on_add": rng.choice([None, 3000])})
+                "lookup_on_add": rng.choice([None, 3000]),
+                # an application handler with a bug of its own: it raises the first time it is told about a service
+                "raise_once": rng.random() < 0.12})
     t = rng.choice([1.0, 2.5, 4.0, 40.0, 1200.0])
     recs = SvcRecords(sv[0])
     ext = SvcRecords({"type": T2, "name": "Ext._ipp._tcp.local.", "port": 631, "server": "ext.local.",
@@ -200,8 +202,9 @@ def execute(scenario, seed, overrides=None):
     b = _run(scenario, seed, overrides, True)
     t0 = a["t0"]
     for r in (a, b):
-        if r["exc"]:
-            out.add("C16.loop-exception", f"exception reached the loop handler: {r['exc'][0]}")
+        own = [e for e in r["exc"] if e.get("type") != "BuggyHandler"]  # (the application's own failing handler)
+        if own:
+            out.add("C16.loop-exception", f"exception reached the loop handler: {own[0]}")
     ntx = 0
     # first instant at which a query with a QU question was delivered twice back to back (known finding D7:
     # such a datagram is deliberately exempt from the duplicate guard and processed twice in full)
